@@ -26,6 +26,7 @@ edits(kind)                                   strategy of edit operations valid 
 apply_edit(flow, op)                          apply one edit operation to a real flow (public attribute API only)
 type_errors(flow) -> [str]                    attributes whose value does not have the declared type ([] == valid)
 kind_of(desc), populated(desc)                classification helpers for evidence histograms
+canon_repr(x)                                 dict-order independent repr (multiset comparison of states)
 CERTS                                         three PEM certificates (CA, 2 leaves) used for certificate fields
 
 Descriptor format (all keys optional except "type"; defaults in brackets)
@@ -971,3 +972,12 @@ def type_errors(f):
                     if not (isinstance(r[0], str) and _is(r[1], int) and _is(r[2], int) and _is(r[3], int) and isinstance(r[4], bytes)):
                         errs.append("%s.%s[%d]: %r" % (which, sec, i, r))
     return errs
+
+
+def canon_repr(x):
+    """repr() that does not depend on dict insertion order (for sorting / multiset comparison of states) (STABLE)"""
+    if isinstance(x, dict):
+        return "{" + ",".join(sorted("%s:%s" % (canon_repr(k), canon_repr(v)) for k, v in x.items())) + "}"
+    if isinstance(x, (list, tuple)):
+        return "[" + ",".join(canon_repr(i) for i in x) + "]"
+    return repr(x)
